@@ -98,3 +98,42 @@ def strip_line_continuations(body):
         out.append(c)
         i += 1
     return ''.join(out)
+
+
+def is_numeric_literal(s):
+    """ES5 7.8.3 NumericLiteral (DecimalLiteral | HexIntegerLiteral) plus the legacy octal form of Annex B.1.1, by hand-written scanning
+    over ASCII characters only (no other digit is a digit of the language)."""
+    D = '0123456789'
+
+    def digits(i, allowed=D):
+        j = i
+        while j < len(s) and s[j] in allowed:
+            j += 1
+        return j
+
+    def exponent(i):
+        """index after an optional ExponentPart starting at i, or None if one starts but is malformed"""
+        if i < len(s) and s[i] in 'eE':
+            j = i + 1
+            if j < len(s) and s[j] in '+-':
+                j += 1
+            k = digits(j)
+            return k if k > j else None
+        return i
+    if not s:
+        return False
+    if len(s) > 2 and s[0] == '0' and s[1] in 'xX':
+        return digits(2, '0123456789abcdefABCDEF') == len(s)
+    if len(s) > 1 and s[0] == '0' and digits(1, '01234567') == len(s):
+        return True                                    # legacy octal
+    if s[0] == '.':
+        j = digits(1)
+        if j == 1:
+            return False
+        return exponent(j) == len(s)
+    if s[0] not in D:
+        return False
+    i = 1 if s[0] == '0' else digits(0)                # DecimalIntegerLiteral: 0 | NonZeroDigit DecimalDigits?
+    if i < len(s) and s[i] == '.':
+        i = digits(i + 1)
+    return exponent(i) == len(s)
